@@ -1,5 +1,5 @@
 // C01 — FFT64 negacyclic product is exact within the documented precision budget.
-// Engine A: N x path (small single product; svp prepare+apply+idft; same with idft_tmp_a) x cfg x
+// Engine A: N x path (small single product; svp prepare+apply+idft; same with idft_tmp_a; same with idft in place) x cfg x
 // shapes x operand-pattern pairs in three magnitude regimes, all generated inside the documented
 // domain (|coeff| < 2^50, min(|a|_1 |b|_inf, |a|_inf |b|_1) < 2^52), plus complete small scopes.
 // Oracle: exact __int128 negacyclic product; accept iff |res - exact| <= E + 1/2 with
@@ -98,8 +98,23 @@ static void run_pair(Ctx& ctx, MODULE* mod, uint64_t N, const std::string& id, c
     for (uint64_t k = 0; k < N; ++k) { uint64_t t = (k + i) % N; limbs[i][t] = (k + i >= N) ? -a0[k] : a0[k]; }  // a0 * X^i
     if (i == 0) exl[0] = ex;
   }
-  for (auto& sh : shapes) for (uint64_t asl : (full_shapes ? std::vector<uint64_t>{N, N + 3} : std::vector<uint64_t>{N + 3})) for (int variant = 0; variant < 2; ++variant) {
+  for (auto& sh : shapes) for (uint64_t asl : (full_shapes ? std::vector<uint64_t>{N, N + 3} : std::vector<uint64_t>{N + 3})) for (int variant = 0; variant < 3; ++variant) {
     uint64_t rs = sh.first, as = sh.second;
+    if (variant == 2) {
+      // inverse DFT written over its own input: the DFT vector has a_size rows, the result res_size rows, one buffer
+      GBuf a(limbvec_elems(N, as, asl) * 8, 24), buf(bytes_of_vec_znx_dft(mod, std::max(rs, as)), 16), t(vec_znx_idft_tmp_bytes(mod), 0);
+      prefill(a.p, a.bytes, 1); prefill(buf.p, buf.bytes, 2);
+      for (uint64_t i = 0; i < as; ++i) memcpy(a.as<int64_t>() + i * asl, limbs[i].data(), N * 8);
+      svp_apply_dft(mod, (VEC_ZNX_DFT*)buf.p, as, (SVP_PPOL*)ppol.p, a.as<int64_t>(), as, asl);
+      vec_znx_idft(mod, (VEC_ZNX_BIG*)buf.p, rs, (VEC_ZNX_DFT*)buf.p, as, t.p);
+      const char* pn = "svp_prepare + svp_apply_dft + vec_znx_idft in place";
+      for (uint64_t i = 0; i < rs; ++i) {
+        if (i < as) { if (exl[i].empty()) exact_product(N, limbs[i], p, exl[i]); if (!judge(ctx, id, pn, N, buf.as<int64_t>() + i * N, exl[i], E)) break; }
+        else for (uint64_t k = 0; k < N; ++k) if (buf.as<int64_t>()[i * N + k] != 0) { ctx.violation(id, sfmt("%s: output row %llu (>= a_size=%llu) is not exactly zero", pn, (unsigned long long)i, (unsigned long long)as)); i = rs; break; }
+      }
+      if (!a.guards_ok() || !buf.guards_ok()) ctx.violation(id, std::string(pn) + " wrote outside a declared extent");
+      continue;
+    }
     GBuf a(limbvec_elems(N, as, asl) * 8, 24), dft(bytes_of_vec_znx_dft(mod, rs), 16), big(bytes_of_vec_znx_big(mod, rs), 8);
     prefill(a.p, a.bytes, 1); prefill(dft.p, dft.bytes, 2); prefill(big.p, big.bytes, 1);
     for (uint64_t i = 0; i < as; ++i) memcpy(a.as<int64_t>() + i * asl, limbs[i].data(), N * 8);
